@@ -40,9 +40,22 @@
    Html/HtmlTie.v stop compiling when either repair is taken out or the bound is
    off by one, and the check then replays corpus/C14 on the real binary.
    Theorems named C14_historical_* are pins of the shipped code that no longer
-   exists in /repo; they are not results about the current tree. *)
+   exists in /repo; they are not results about the current tree.
+
+   The oracle is tied to the theorems row by row (C14_oracle_clause6_is_per_row,
+   C14_oracle_row_accepts_model): the harness may call a failing row the known
+   finding only when that row's own suite violates [row_guard] and the row is
+   still sound.  index.html itself is modelled as bytes (Html/HtmlPage.v: html.c
+   and the render_* functions) and read by a strict reader written in Gallina
+   (Html/HtmlParse.v); C14_index_roundtrip says that reading the rendered file
+   gives back the columns and rows these theorems speak about, for names that do
+   not change the markup; C14_index_roundtrip_refuted is a name that does (html.c
+   escapes nothing - outside the property, findings/C14_html_no_escaping.md). *)
 From Robsd Require Import Html.HtmlProofs Html.HtmlWitness Html.HtmlTie Html.HtmlSuccess Html.HtmlRow Html.HtmlOracle.
+From Robsd Require Import Html.HtmlRowOracle Html.HtmlPageProofs Html.HtmlPageSafe Html.HtmlRerun Html.HtmlLink.
+From Robsd Require RegressLog.RLCallDefs RegressLog.RLHtmlBridge.
 From RobsdGen Require Import Gen_Html.
+From RobsdGen Require Gen_RegressLog.
 From Coq Require Import String Sorting.Sorted Sorting.Permutation.
 Local Open Scope N_scope.
 
@@ -426,6 +439,22 @@ Theorem C14_link_target_partial : forall q inp pg, run_html q inp = Some pg ->
 Proof. exact link_target. Qed.
 Print Assumptions C14_link_target_partial.
 
+(* the proviso discharged from conditions that can be checked on the input: arch
+   and directory names without '/', and - in the run's invocation - log names
+   pairwise distinct, without '/', none of dmesg, comment, diff (robsd's own
+   NNN-name.log names are such names): then the link of every run leads to a file
+   holding the extraction of that run's log *)
+Theorem C14_link_target_checkable : forall q inp pg, run_html q inp = Some pg ->
+  exists v, view (walk_dirs q) inp = Some v /\
+    forall I sr, (forall J, In J v -> plain J) -> In I v -> In sr (si_runs I) ->
+      (NoDup (map sr_log (si_runs I)) /\
+       forall sr', In sr' (si_runs I) ->
+         noslash (sr_log sr') /\ sr_log sr' <> name_dmesg /\ sr_log sr' <> name_comment /\ sr_log sr' <> name_diff) ->
+      tree_lookup (p_tree pg) (pjoin (pjoin (si_arch I) (si_date I)) (sr_log sr)) =
+      Some (Some (spec_extract (spec_status (sr_exit sr) (sr_content sr)) (sr_content sr))).
+Proof. exact link_target_checkable. Qed.
+Print Assumptions C14_link_target_checkable.
+
 (* without the proviso it fails: two steps of one invocation naming the same
    log file, one exiting 0 (SKIP) and one exiting 1 (FAIL) - the FAIL cell
    links to the extraction made for the SKIP run *)
@@ -461,10 +490,12 @@ Theorem C14_oracle_sound : forall inp o,
 Proof. exact (fun inp o => conj (spec_ok_reject inp o) (fun v => spec_ok_sound inp o v)). Qed.
 Print Assumptions C14_oracle_sound.
 
-(* ... and it is tied to the theorems: applied to what the MODEL renders for a
-   command line with arch and directory names free of '/', it can only ever
-   fail clause 6 (a cell - the known finding), and it accepts the page as soon
-   as every suite satisfies the per-row guard *)
+(* ... and it is tied to the theorems.  HYPOTHESIS [plain_input]: arch and directory
+   names free of '/' (without it the exit-status clause and the model differ:
+   C14_oracle_accepts_model_refuted).  Applied to what the MODEL renders for such
+   a command line the oracle can only ever fail clause 6 (a cell), and it accepts
+   the page as soon as every suite satisfies the per-row guard.  Which rows may
+   fail is said row by row, without any hypothesis, by C14_oracle_row_accepts_model *)
 Theorem C14_oracle_accepts_model_partial : forall inp, plain_input inp ->
   (forall k, In k (spec_check inp (obs_of (run_html_exec inp))) -> k = 6) /\
   (forall v, view (walk_dirs exec_qsorts) inp = Some v ->
@@ -481,6 +512,107 @@ Theorem C14_oracle_accepts_model_refuted :
 Proof. exact oracle_slash_witness. Qed.
 Print Assumptions C14_oracle_accepts_model_refuted.
 
+(* ---- the cell clause of the oracle, row by row (what the harness is entitled to
+   call the known finding) ---- *)
+
+(* clause 6 of spec_check says exactly: the observation has a matrix to judge and
+   some row of [rows_report] is not the specified row *)
+Theorem C14_oracle_clause6_is_per_row : forall inp o,
+  In 6 (spec_check inp o) <->
+  exists v rep, view (walk_dirs exec_qsorts) inp = Some v /\
+    inp <> [] /\ nodupb (map sinv_dir v) = true /\ o_exit o = 0 /\
+    rows_report inp o = Some rep /\ existsb (fun r => negb (rr_cells_ok r)) rep = true.
+Proof. exact clause6_rows. Qed.
+Print Assumptions C14_oracle_clause6_is_per_row.
+
+(* the two booleans of a report row are the per-row guard of C14_cell_iff_ran_partial
+   (for pairwise distinct arch/date directories - every page has them, C14_page_iff_partial) *)
+Theorem C14_row_guard_booleans : forall v S, NoDup (map sinv_dir v) ->
+  (row_guardb v S = true <-> row_guard v S) /\
+  row_guardb v S = row_onceb v S && row_notiesb v S.
+Proof. exact (fun v S Hnd => conj (row_guardb_iff v S Hnd) eq_refl). Qed.
+Print Assumptions C14_row_guard_booleans.
+
+(* the oracle accepts the model ROW BY ROW, for every command line whatsoever: in
+   the report on the model's own page every row is sound (never longer than the
+   header; every non-empty cell is the status and arch/date/log link of some run
+   of that suite, in a column that started no later than that run's invocation),
+   and every row whose own suite satisfies the guard is the specified row.  Hence
+   a failing row with the guard is never the known finding, and a failing row
+   without it is the known finding only as long as it is sound. *)
+Theorem C14_oracle_row_accepts_model : forall inp rep,
+  rows_report inp (obs_of (run_html_exec inp)) = Some rep ->
+  forall r, In r rep ->
+    rr_sound r = true /\ (rr_once r = true -> rr_noties r = true -> rr_cells_ok r = true).
+Proof. exact rows_report_model. Qed.
+Print Assumptions C14_oracle_row_accepts_model.
+
+(* ---- the status decision is the one property C13's caller model makes ---- *)
+Theorem C14_status_is_C13_html_status : forall exit log,
+  RLHtmlBridge.to_hstatus (classify (Z.of_N exit) log) =
+  RLCallDefs.html_status Gen_RegressLog.ex_timeout exit log.
+Proof. exact RLHtmlBridge.html_status_is_classify. Qed.
+Print Assumptions C14_status_is_C13_html_status.
+
+(* ---- index.html as bytes ---- *)
+
+(* [page_bytes pg] (Html/HtmlPage.v) is the file html.c + the render_* functions
+   write for the page pg (compared byte for byte with the real file by the check);
+   [parse_index] (Html/HtmlParse.v) is the strict reader whose matrix the oracle
+   judges.  Reading the model's file back gives the model's matrix - columns and
+   rows as the theorems above talk about them - whenever page_safe holds: dates,
+   arch names, suite names (and rates) non-empty, without a less-than sign and
+   without white space at either end; no double quote in any link *)
+Theorem C14_index_roundtrip : forall pg, page_safeb pg = true ->
+  parse_index (page_bytes pg) = POk (p_cols pg) (map orow_of (p_rows pg)).
+Proof. exact index_roundtrip. Qed.
+Print Assumptions C14_index_roundtrip.
+
+(* the same on the input: every qsort, every command line whose arch, directory and
+   suite names are such names and whose log names hold no double quote *)
+Theorem C14_index_roundtrip_input : forall q inp pg v,
+  qsorts_ok q -> run_html q inp = Some pg -> view (walk_dirs q) inp = Some v ->
+  (forall I, In I v ->
+     (text_okb (si_arch I) = true /\ attr_okb (si_arch I) = true) /\
+     (text_okb (si_date I) = true /\ attr_okb (si_date I) = true) /\
+     forall sr, In sr (si_runs I) ->
+       (text_okb (sr_suite sr) = true /\ attr_okb (sr_suite sr) = true) /\ attr_okb (sr_log sr) = true) ->
+  parse_index (page_bytes pg) = POk (p_cols pg) (map orow_of (p_rows pg)).
+Proof. exact index_roundtrip_view. Qed.
+Print Assumptions C14_index_roundtrip_input.
+
+(* so the observation built from the files the model leaves (exit status, bytes of
+   index.html, output tree) is the observation the oracle theorems are about *)
+Theorem C14_observation_from_files : forall p, (forall pg, p = Some pg -> page_safeb pg = true) ->
+  obs_of_files (match p with Some _ => 0 | None => 1 end) (index_bytes p)
+               (match p with Some pg => p_tree pg | None => [] end) = Some (obs_of p).
+Proof. exact obs_of_files_model. Qed.
+Print Assumptions C14_observation_from_files.
+
+(* outside that guard it fails, because html.c escapes nothing: a suite named
+   a<b>/c is written into the markup as it is and the file is not well formed *)
+Theorem C14_index_roundtrip_refuted :
+  exists pg v, run_html_exec w_markup = Some pg /\ view (walk_dirs exec_qsorts) w_markup = Some v /\
+    map fst (p_rows pg) = [bs "a<b>/c"] /\ ~ view_safe v /\ page_safeb pg = false /\
+    parse_index (page_bytes pg) = PFail 2.
+Proof. exact index_unsafe_witness. Qed.
+Print Assumptions C14_index_roundtrip_refuted.
+
+(* ---- the assumption "empty output directory" ---- *)
+
+(* [run_html] starts from an empty output directory.  Otherwise: when the arch/date
+   directory of the first invocation the program walks exists already (a second
+   generation into the same directory), the model exits 1 whatever else the input
+   holds - a page cannot be regenerated in place.  (Observed by the check's rerun
+   lane on the real program: exit 1 at that mkdir, nothing below the output
+   directory touched, index.html left as it was.) *)
+Theorem C14_regeneration_refused : forall q a inp e es st,
+  walk_dirs q (a_entries a) = e :: es ->
+  tree_has (st_tree st) (pjoin (a_arch a) (e_name e)) = true ->
+  parse_all q (a :: inp) st = None.
+Proof. exact regeneration_refused. Qed.
+Print Assumptions C14_regeneration_refused.
+
 (* non-vacuity: two arches, three invocations with distinct start times, a
    suite that appears later, one that disappears, a failing one, a timeout:
    the guards hold, the page exists, and its rows are the specified ones *)
@@ -490,3 +622,13 @@ Example C14_example :
     map fst (p_rows pg) = w_example_suites /\
     map snd (p_rows pg) = w_example_rows.
 Proof. exact example_page. Qed.
+
+(* non-vacuity of the byte-level statements: the same example's index.html (more
+   than 2000 bytes) satisfies the guard and is read back to its three columns and
+   three rows *)
+Example C14_example_index :
+  exists pg, run_html_exec w_example = Some pg /\ page_safeb pg = true /\
+    parse_index (page_bytes pg) = POk (p_cols pg) (map orow_of (p_rows pg)) /\
+    List.length (p_cols pg) = 3%nat /\ List.length (p_rows pg) = 3%nat /\
+    Nat.ltb 2000 (List.length (page_bytes pg)) = true.
+Proof. exact example_index. Qed.
